@@ -22,6 +22,7 @@ TRUSTED = ['rustc const evaluation + MIR construction (nightly)', 'pdb-facts dri
 def run(ctx):
     shared.chain_link_markers_agree(ctx, '9m')
     codec_refusal_is_not_a_panic(ctx)
+    uncounted_set_is_always_written(ctx)
     F = ctx.F
     C = {k: v for k, v in F.consts.items()}
     def ci(name):
@@ -412,3 +413,38 @@ def codec_refusal_is_not_a_panic(ctx):
             ctx.ob('10a codec-refusal-is-not-a-panic %s <- %s' % (b.path, callee.split('::')[-1]), 'K7-unwrap-audit', b.path,
                    'an encoder does not unwrap the result of the codec: a refused input (size limit) is stored uncompressed', True, '')
     ctx.ob('10a0 encoder-anchor', 'anchor', 'compress::', 'the encoders call at least two fallible foreign functions (lz4, snappy)', n >= 2, 'fallible call sites in compress::*::compress: %d' % n)
+
+
+def uncounted_set_is_always_written(ctx):
+    """A Set of an existing key in a column that is neither reference counted nor preimage-keyed replaces the stored value: every
+    success path of that arm of write_existing_value_plan passes a table write (replace in place, or remove + insert in another
+    tier). A shortcut that decides "nothing to write" from the stored bytes (same length, same bytes) forgets that what an entry
+    means is its bytes AND its compressed flag (seed C06-unchanged-shortcut-ignores-compressed-flag)."""
+    F = ctx.F
+    we = ctx.body('column::Column::write_existing_value_plan')
+    if not we:
+        return
+    rcs = [l for l, nm in we.names.items() if nm == 'ref_counted' and 1 <= l <= we.argc]
+    ctx.ob('11a0 plan-anchor', 'anchor', we.path, 'write_existing_value_plan has a ref_counted parameter', len(rcs) == 1, str(rcs))
+    if len(rcs) != 1:
+        return
+    off = set(lib.prune_bool_param(we, rcs[0], False)) | set(lib.prune_bool_field(we, '.TablesRef.preimage', False))
+    opsw = None
+    for bi in we.normal_blocks():
+        t = we.term(bi)
+        d = lib.switch_def(we, bi)
+        if t['k'] == 'switch' and d and d[2] == 'assign' and d[3]['r']['k'] == 'discr' and 'db::Operation<' in str(we.locals[d[3]['r']['p'][0]]):
+            opsw = bi
+            break
+    names = {v['discr']: v['name'] for v in F.adts['db::Operation']['variants']}
+    arms = dict(zip(we.term(opsw)['vals'], we.term(opsw)['ts'])) if opsw is not None else {}
+    setarm = [tg for v, tg in arms.items() if names.get(v) == 'Set']
+    writes = lib.sites_reaching(we, ['table::ValueTable::write_replace_plan', 'table::ValueTable::write_insert_plan'])
+    ok = bool(setarm) and bool(writes)
+    w = None
+    if ok:
+        w = we.find_path(setarm, we.return_blocks(), removed=set(writes) | core.error_exit_blocks(we) | {opsw}, removed_edges=frozenset(off))
+        ok = w is None
+    ctx.ob('11a uncounted-set-is-always-written', 'K1-must-pass', we.path,
+           'with ref_counted and preimage off, every success path of the Set arm writes the value into a table (write_replace_plan or write_insert_plan): no "unchanged" shortcut',
+           ok, 'no Set arm / write sites' if w is None and not ok else ('success path that writes nothing: ' + lib.short_path(we, w) if w else ''))
